@@ -22,4 +22,5 @@ ACTION_CONSTRAINT RoundTripA
 ACTION_CONSTRAINT NothingInProgressAfterLoadA
 ACTION_CONSTRAINT RepairIsLegalA
 ACTION_CONSTRAINT LoadedLikeFreshA
+ACTION_CONSTRAINT ReportsToOwnListenersA
 CHECK_DEADLOCK FALSE
